@@ -198,6 +198,63 @@ def frame_walk(blocks, strand, frames):
     return codons, degenerate
 
 
+def cleaned_blocks(blocks, strand, frames):
+    """the part of each CDS block that takes part in the reading frame (FrameModel): the skipped bases at a frame offset /
+    re-synchronisation are cut off the 5' side of that block, the dropped incomplete codon off the 3' side of the blocks
+    before it.  Returns the non-empty remainders as ascending-coordinate blocks, in ascending block order."""
+    order = list(range(len(blocks)))
+    if strand == "-":
+        order.reverse()
+    kept = {}
+    walked = []   # block indices in walk order
+    pending = 0
+    for idx in order:
+        s, e = blocks[idx]
+        n = e - s
+        f = frames[idx]
+        skip = 0
+        if f != pending:
+            drop = pending
+            for j in reversed(walked):
+                if drop == 0:
+                    break
+                take = min(drop, kept[j][1] - kept[j][0])
+                if strand != "-":
+                    kept[j][1] -= take
+                else:
+                    kept[j][0] += take
+                drop -= take
+            pending = 0
+            skip = min(f, n)
+        kept[idx] = [s + skip, e] if strand != "-" else [s, e - skip]
+        walked.append(idx)
+        pending = (pending + n - skip) % 3
+    return [kept[i] for i in sorted(kept) if kept[i][1] > kept[i][0]]
+
+
+def order_representable(blocks):
+    """a Location keeps its blocks sorted by start: a list of blocks read in the given order is representable iff the starts
+    and the ends are strictly increasing"""
+    return all(blocks[i][0] < blocks[i + 1][0] and blocks[i][1] < blocks[i + 1][1] or blocks[i][1] <= blocks[i + 1][0] for i in range(len(blocks) - 1))
+
+
+def codons_representable(codons, strand):
+    """can every codon (a 5'->3' list of positions) be stored as a Location? Its maximal runs become blocks, and the blocks are
+    kept in the canonical order (ties on start!), so the positions read back must equal the codon"""
+    step = -1 if strand == "-" else 1
+    for cod in codons:
+        runs = [[cod[0], cod[0]]]
+        for p_ in cod[1:]:
+            if p_ == runs[-1][1] + step:
+                runs[-1][1] = p_
+            else:
+                runs.append([p_, p_])
+        bl = [(min(a, b), max(a, b) + 1) for a, b in runs]
+        if positions(bl, strand) != list(cod):
+            return False
+    return True
+
+
 def frames_from_offset(blocks, strand, offset):
     """frames (aligned with ascending blocks) of ONE uninterrupted reading frame that starts after ``offset`` skipped
     bases of the 5'-most exon: frame of a later exon = number of bases of the codon pending at its start"""
